@@ -72,8 +72,8 @@ func (x *Exec) applyFrame(st *State, f *FrameSet) {
 		}
 		sort.Strings(names)
 		for _, n := range names {
-			if strings.HasPrefix(n, "GH$") || strings.HasPrefix(n, "GV$") {
-				continue // ghost state is only changed by contracts
+			if (strings.HasPrefix(n, "GH$") || strings.HasPrefix(n, "GV$")) && !f.GhostAll {
+				continue // ghost state is only changed by contracts (an unknown function value may run any of them)
 			}
 			x.havocHeap(st, n)
 		}
@@ -406,6 +406,18 @@ func (x *Exec) staticModifies(f *ssa.Function, fc *FuncContract, m Expr, frame *
 				return
 			}
 		}
+		// a closure's captured variable, by name: the captured cell is written (its cell lives in the heap array of the
+		// variable's type)
+		if f != nil {
+			for i, fv := range f.FreeVars {
+				if fv.Name() == e.Name || x.prog.baseFreeVarName(f, i) == e.Name {
+					if pt, ok := fv.Type().Underlying().(*types.Pointer); ok {
+						x.prog.addPointeeWrites(frame, pt.Elem(), -1)
+						return
+					}
+				}
+			}
+		}
 		// ghost variable
 		frame.Names["GV$"+e.Name] = true
 	case *ECall:
@@ -603,6 +615,7 @@ func (x *Exec) callWith(st *State, in ssa.Instruction, c *ssa.CallCommon, fnv Va
 	x.abstr["dynamic call of "+c.Value.Type().String()] = true
 	f := NewFrameSet()
 	f.All = true
+	f.GhostAll = true // an unknown function value may be any function: it may assign every ghost variable too
 	x.applyFrame(st, f)
 	return x.freshResult(st, "dyn", resT)
 }
@@ -1108,6 +1121,22 @@ func (x *Exec) frameGoals(st *State, only map[string]bool) (out []frameGoal) {
 					}
 				}
 			case *EIdent:
+				// a captured variable of the closure under verification: its cell may be written
+				captured := false
+				for i, fv := range x.fn.FreeVars {
+					if fv.Name() == e.Name || x.prog.baseFreeVarName(x.fn, i) == e.Name {
+						if p, ok := x.entry.regs[fv].(*Ptr); ok && p.Ref != nil {
+							if pt, ok := fv.Type().Underlying().(*types.Pointer); ok {
+								n := heapCellName(x.prog.sortOf(pt.Elem()))
+								allowed[n] = append(allowed[n], p.Ref)
+								captured = true
+							}
+						}
+					}
+				}
+				if captured {
+					return
+				}
 				tv := ctx.eval(e)
 				if tv.T != nil {
 					if mt, ok := tv.T.Underlying().(*types.Map); ok {
